@@ -10,6 +10,7 @@ import numpy as np
 from hypothesis import strategies as st
 
 from vf import build, gen, geom
+from vf import core
 from vf.core import Violation, exc_sig
 
 ID = "C06"
@@ -30,7 +31,7 @@ ASSUMPTIONS = [
     "observers closer than 1e-6 L to a surface are only generated with identity poses (bit-identical local coordinates)",
 ]
 
-CLASSES = gen.FIELD_CLASSES
+CLASSES = gen.ALL_SOURCES
 TOL = 1e-9
 
 
@@ -48,7 +49,7 @@ def _sources(draw):
         for _ in range(n):
             out.append(draw(gen.source_spec(classes=CLASSES, max_path=4, L=L, pos_extent=1.0)))
     else:
-        cls = draw(st.sampled_from(["TriangularMesh", "TriangularMesh", "Polyline", "Tetrahedron", "Cuboid", "CylinderSegment", "Cylinder", "Triangle"]))
+        cls = draw(st.sampled_from(["TriangularMesh", "TriangularMesh", "Polyline", "Tetrahedron", "Cuboid", "CylinderSegment", "Cylinder", "Triangle", "CustomSource"]))
         first = draw(gen.source_spec(classes=[cls], max_path=4, L=L, pos_extent=1.0))
         out.append(first)
         for _ in range(max(1, n - 1)):
@@ -288,9 +289,9 @@ def run_case(case, ctx):
                 spread = 0.0
                 mag = max(float(np.max(np.abs(gp0))), float(np.max(np.abs(lp0))), 1e-300)
                 for ax in range(3):
-                    for sg in (1.0, -1.0):
+                    for sg in core.NOISE_STEPS:
                         dp = np.zeros(3)
-                        dp[ax] = sg * 8 * np.finfo(float).eps * mag
+                        dp[ax] = sg * mag
                         rp = build.call(fn, src1, gp0 + dp, squeeze=True)
                         if rp.ok:
                             base = build.call(fn, src1, gp0, squeeze=True).value
